@@ -159,7 +159,10 @@ def stage_area(ctx, res, stats, batch):
         stats["strict_breaks"] += int(strict)
         # a positive increment far below one ulp of the running sum is absorbed by the float cumsum: not the theorem's business
         absorbed = any(0 < z * y / n < 4 * np.spacing(abs(float(T[1][-1]))) for y, n, z in iv if n > 0)
-        if hyp and strict != allpos and not absorbed:
+        # an interval whose exact count is 0 carries a float residue of the difference array (like 8e-25) of either sign:
+        # the float breaks may or may not move there; only intervals clearly away from 0 are decided by the theorem
+        residue = any(abs(y) <= 1e-9 * scale_c for y, n, z in iv)
+        if hyp and strict != allpos and not absorbed and not residue:
             res.violations.append(Violation("timescale-strictness-not-characterised",
                                             f"rescaled breaks strictly increasing = {strict} but all interval counts positive = {allpos}", replay))
         if T[0][0] != 0.0 or T[1][0] != 0.0:
